@@ -169,12 +169,20 @@ func suiteRace(r *rng, n int) {
 // main.update does on every change of any section.  Unchanged upstreams and servers keep serving: every answer is a
 // 200 for the request's own key, routed by the location with the matching prefix.
 func raceUpstreamPhase(r *rng, n int) {
-	origin := httptest.NewServer(http.HandlerFunc(func(w http.ResponseWriter, req *http.Request) {
-		w.Header().Set("Cache-Control", "no-store")
-		w.Header().Set("Content-Type", "text/plain")
-		fmt.Fprintf(w, "key=%s %s %s;%s", req.Method, req.Host, req.RequestURI, strings.Repeat(".", 64))
-	}))
+	mkOrigin := func(tag string) *httptest.Server {
+		return httptest.NewServer(http.HandlerFunc(func(w http.ResponseWriter, req *http.Request) {
+			w.Header().Set("Cache-Control", "no-store")
+			w.Header().Set("Content-Type", "text/plain")
+			w.Header().Set("X-Origin", tag)
+			fmt.Fprintf(w, "key=%s %s %s;%s", req.Method, req.Host, req.RequestURI, strings.Repeat(".", 64))
+		}))
+	}
+	origin := mkOrigin("A")
 	defer origin.Close()
+	// a second origin of the same kind: every other reload points the upstream at it; once a reload has returned, the
+	// requests that START afterwards go where the configuration says
+	originB := mkOrigin("B")
+	defer originB.Close()
 	// the upstream has an Accept-Encoding of its own: the client's header is set aside for the upstream call and put
 	// back afterwards — per request
 	ups := []config.UpstreamConfig{{Name: "u1", AcceptEncoding: "gzip", Servers: []config.UpstreamServerConfig{{Addr: origin.URL}}}}
@@ -215,6 +223,8 @@ func raceUpstreamPhase(r *rng, n int) {
 	}
 	stop := make(chan struct{})
 	var wg, rwg sync.WaitGroup
+	var bad, total, excused int64
+	var mu sync.Mutex
 	rwg.Add(1)
 	go func() {
 		defer rwg.Done()
@@ -227,7 +237,20 @@ func raceUpstreamPhase(r *rng, n int) {
 			// every re-applied upstream list builds a new transport (and leaves the old one's idle connections to time
 			// out): bounded, so that a long run does not use up the machine's sockets
 			if i < 300 {
-				upstream.Reset(ups)
+				cur, tag := ups, "A"
+				if i%2 == 1 {
+					cur, tag = []config.UpstreamConfig{{Name: "u1", AcceptEncoding: "gzip", Servers: []config.UpstreamServerConfig{{Addr: originB.URL}}}}, "B"
+				}
+				upstream.Reset(cur)
+				if healthy() {
+					wre := p.do("GET", "r.test", fmt.Sprintf("/k/probe-%d", i), http.Header{}, nil)
+					if got := wre.Header().Get("X-Origin"); wre.Code == 200 && got != tag && healthy() {
+						atomic.AddInt64(&bad, 1)
+						mu.Lock()
+						emit("race", "bad", "-1", itoa(int64(i)), hx("GET /k/probe"), "=>", hx(fmt.Sprintf("bad:upstream-phase a request started after the reload went to origin %q, configured is %q", got, tag)))
+						mu.Unlock()
+					}
+				}
 			}
 			if !healthy() {
 				atomic.AddInt64(&unhealthy, 1)
@@ -238,8 +261,6 @@ func raceUpstreamPhase(r *rng, n int) {
 			time.Sleep(time.Millisecond)
 		}
 	}()
-	var bad, total, excused int64
-	var mu sync.Mutex
 	for w := 0; w < 8; w++ {
 		wr := r.fork(uint64(1000 + w))
 		wg.Add(1)
